@@ -129,7 +129,7 @@ theorem getSub_some (h : SubHdr) (ns : List String) (fl : Flags) (pre : List Str
     (hc : choice h ns cfg = some v) (ht : v.truthy = true)
     (hf : (fl.fail || fl.single) = true ∨ (explicitOf (lookup h.dest cfg)).isSome = true) :
     ∃ w, getSub h ns fl pre cfg =
-      if fl.fail && !validName ns v then .error (.badname (pre ++ [h.dest]))
+      if !validName ns v then .error (.badname (pre ++ [h.dest]))
       else .ok ⟨prunedK (subKeys ns cfg) v (settled h v cfg), some v, [v], w⟩ := by
   unfold choice at hc
   cases he : explicitOf (lookup h.dest cfg) with
@@ -550,7 +550,8 @@ theorem sweep_node_shape (single : Bool) (i : Info) (h : SubHdr) (choices : List
   obtain ⟨w, hg⟩ := getSub_some h (names choices) ⟨false, single, .none⟩ [] c1 (.str n) hch ht
     (Or.inr (by simp [hdest, explicitOf]))
   rw [hg, settled_explicit h _ c1 n hdest] at hok
-  simp only [Bool.false_and, Bool.false_eq_true, if_false, List.head?_cons, ht, Bool.true_and] at hok
+  have hvn : validName (names choices) (.str n) = true := by simpa [validName] using hn
+  simp only [hvn, Bool.not_true, Bool.false_eq_true, if_false, List.head?_cons, ht, Bool.true_and] at hok
   have hl : lookup n (prunedK (subKeys (names choices) c1) (.str n) c1) = some (.sec inner1) := by
     rw [lookup_prunedK]
     simp [isStr_self, hsec]
